@@ -65,4 +65,125 @@ theorem pctF_of_close (neg : Bool) (m j n6 : Nat) (hj : 20 ≤ j)
   have e2 : (-(-(j : Int))).toNat = j := by omega
   simp only [e1, if_false, e2, Nat.one_mul, hr]
 
+/-- rounding half to even moves a quotient by at most one half -/
+theorem roundHE_close (n d : Nat) (hd : 0 < d) :
+    2 * (roundHE (n / d) (n % d) d * d - n) ≤ d ∧ 2 * (n - roundHE (n / d) (n % d) d * d) ≤ d := by
+  have hdm : d * (n / d) + n % d = n := Nat.div_add_mod n d
+  have hr : n % d < d := Nat.mod_lt n hd
+  have hc : n / d * d = d * (n / d) := Nat.mul_comm _ _
+  have hs : (n / d + 1) * d = d * (n / d) + d := by rw [Nat.add_mul, hc]; simp
+  unfold roundHE
+  split
+  · rw [hc]; omega
+  · split
+    · rw [hs]; omega
+    · split
+      · rw [hc]; omega
+      · rw [hs]; omega
+
+/-- **accuracy of the float conversion of the model**: whatever exponent is chosen, the double `m · 2^-j` returned
+for `num / den` lies within half a unit in the last place, `|m / 2^j - num / den| ≤ 1 / 2^(j+1)` (the inequality is
+multiplied out) -/
+theorem roundAt_half_ulp (num den : Nat) (hd : 0 < den) (e2 : Int) (m j : Nat)
+    (h : roundAt num den e2 = some (m, -(j : Int))) (hj : 0 < j) :
+    2 * (m * den - num * 2 ^ j) ≤ den ∧ 2 * (num * 2 ^ j - m * den) ≤ den := by
+  unfold roundAt at h
+  simp only at h
+  by_cases hc : roundHE (scaledDiv num den e2).1 (scaledDiv num den e2).2.1 (scaledDiv num den e2).2.2 = 2 ^ 53
+  · -- the carry into the next binade: `e2 = -(j+1)`, rounded mantissa `2^53`
+    simp only [hc, if_true] at h
+    split at h
+    · cases h
+    · injection h with h
+      injection h with hm he
+      have he2 : e2 = -((j + 1 : Nat) : Int) := by omega
+      subst he2
+      have hneg : (-((j + 1 : Nat) : Int)) < 0 := by omega
+      have hab : (-((j + 1 : Nat) : Int)).natAbs = j + 1 := by omega
+      unfold scaledDiv at hc
+      simp only [hneg, if_true, hab] at hc
+      have := roundHE_close (num * 2 ^ (j + 1)) den hd
+      rw [hc] at this
+      subst hm
+      have e53 : (2 : Nat) ^ 53 = 2 * 2 ^ 52 := by decide
+      have ej : num * 2 ^ (j + 1) = 2 * (num * 2 ^ j) := by rw [Nat.pow_succ]; ac_rfl
+      rw [e53, ej, Nat.mul_assoc] at this
+      omega
+  · simp only [hc, if_false] at h
+    split at h
+    · cases h
+    · injection h with h
+      injection h with hm he
+      subst he
+      have hneg : (-(j : Int)) < 0 := by omega
+      have hab : (-(j : Int)).natAbs = j := by omega
+      unfold scaledDiv at hm
+      simp only [hneg, if_true, hab] at hm
+      have := roundHE_close (num * 2 ^ j) den hd
+      rw [hm] at this
+      exact this
+
+theorem nearestF64_half_ulp (num den : Nat) (hd : 0 < den) (m j : Nat)
+    (h : nearestF64 num den = some (m, -(j : Int))) (hj : 0 < j) :
+    2 * (m * den - num * 2 ^ j) ≤ den ∧ 2 * (num * 2 ^ j - m * den) ≤ den :=
+  roundAt_half_ulp num den hd _ m j h hj
+
+/-- the double of a literal with `k ≤ 6` fraction digits and digits `n` (value `n / 10^k`), when its exponent is
+`≤ -20`, is printed by `'%f'` with exactly the six-place digits `n · 10^(6-k)` -/
+theorem pctF_of_nearest (neg : Bool) (n k m j : Nat) (hk : k ≤ 6) (hj : 20 ≤ j)
+    (h : nearestF64 n (10 ^ k) = some (m, -(j : Int))) :
+    F.pctF { neg := neg, m := m, e := -(j : Int) } =
+      (if neg then [cMinus] else []) ++ natToDigits (n * 10 ^ (6 - k) / 10 ^ 6) ++ cDot ::
+        (List.replicate (6 - (natToDigits (n * 10 ^ (6 - k) % 10 ^ 6)).length) cZero ++
+          natToDigits (n * 10 ^ (6 - k) % 10 ^ 6)) := by
+  have hpos : 0 < 10 ^ k := Nat.pow_pos (by decide)
+  obtain ⟨a1, a2⟩ := nearestF64_half_ulp n (10 ^ k) hpos m j h (by omega)
+  have e6 : (10 : Nat) ^ 6 = 10 ^ k * 10 ^ (6 - k) := by rw [← Nat.pow_add]; congr 1; omega
+  have c : 0 < 10 ^ (6 - k) := Nat.pow_pos (by decide)
+  apply pctF_of_close neg m j (n * 10 ^ (6 - k)) hj
+  · -- multiply the half-ulp inequality by 10^(6-k)
+    have : 2 * (m * 10 ^ k - n * 2 ^ j) * 10 ^ (6 - k) ≤ 10 ^ k * 10 ^ (6 - k) := Nat.mul_le_mul_right _ a1
+    rw [e6]
+    have e : m * (10 ^ k * 10 ^ (6 - k)) - n * 10 ^ (6 - k) * 2 ^ j = (m * 10 ^ k - n * 2 ^ j) * 10 ^ (6 - k) := by
+      rw [Nat.sub_mul]; congr 1 <;> ac_rfl
+    rw [e]; rw [Nat.mul_assoc] at this; exact this
+  · have : 2 * (n * 2 ^ j - m * 10 ^ k) * 10 ^ (6 - k) ≤ 10 ^ k * 10 ^ (6 - k) := Nat.mul_le_mul_right _ a2
+    rw [e6]
+    have e : n * 10 ^ (6 - k) * 2 ^ j - m * (10 ^ k * 10 ^ (6 - k)) = (n * 2 ^ j - m * 10 ^ k) * 10 ^ (6 - k) := by
+      rw [Nat.sub_mul]; congr 1 <;> ac_rfl
+    rw [e]; rw [Nat.mul_assoc] at this; exact this
+
+/-- **the window**: a normal double (`2^52 ≤ m`) `m · 2^-j` that is the conversion of a decimal `n / 10^k` with at most
+six fraction digits and value below `2^33` has `j ≥ 20` — below `2^33` half an ulp is less than half a unit of the
+sixth decimal (`10^6 < 2^20`), which is exactly why the window of `C18-float-digits` ends at `2^33` -/
+theorem window_exponent (n k m j : Nat) (hk : k ≤ 6) (hj : 0 < j) (hm : 2 ^ 52 ≤ m)
+    (hn : n < 2 ^ 33 * 10 ^ k) (h : nearestF64 n (10 ^ k) = some (m, -(j : Int))) : 20 ≤ j := by
+  have hpos : 0 < 10 ^ k := Nat.pow_pos (by decide)
+  obtain ⟨a1, _⟩ := nearestF64_half_ulp n (10 ^ k) hpos m j h hj
+  have hT : 10 ^ k ≤ 10 ^ 6 := Nat.pow_le_pow_right (by decide) hk
+  have hA : 2 ^ 52 * 10 ^ k ≤ m * 10 ^ k := Nat.mul_le_mul_right _ hm
+  apply Classical.byContradiction
+  intro hlt
+  have hj19 : j ≤ 19 := by omega
+  have hB : n * 2 ^ j ≤ n * 2 ^ 19 := Nat.mul_le_mul_left _ (Nat.pow_le_pow_right (by decide) hj19)
+  generalize 10 ^ k = T at *
+  generalize m * T = A at *
+  generalize n * 2 ^ j = B at *
+  have e52 : (2 : Nat) ^ 52 = 4503599627370496 := by decide
+  have e33 : (2 : Nat) ^ 33 = 8589934592 := by decide
+  have e19 : (2 : Nat) ^ 19 = 524288 := by decide
+  have e6 : (10 : Nat) ^ 6 = 1000000 := by decide
+  rw [e52] at hA; rw [e33] at hn; rw [e19] at hB; rw [e6] at hT
+  omega
+
+/-- for every literal with at most six fraction digits and value below `2^33` whose double is normal with a negative
+exponent, `'%f'` of that double prints exactly the literal's value on six places -/
+theorem pctF_in_window (neg : Bool) (n k m j : Nat) (hk : k ≤ 6) (hj : 0 < j) (hm : 2 ^ 52 ≤ m)
+    (hn : n < 2 ^ 33 * 10 ^ k) (h : nearestF64 n (10 ^ k) = some (m, -(j : Int))) :
+    F.pctF { neg := neg, m := m, e := -(j : Int) } =
+      (if neg then [cMinus] else []) ++ natToDigits (n * 10 ^ (6 - k) / 10 ^ 6) ++ cDot ::
+        (List.replicate (6 - (natToDigits (n * 10 ^ (6 - k) % 10 ^ 6)).length) cZero ++
+          natToDigits (n * 10 ^ (6 - k) % 10 ^ 6)) :=
+  pctF_of_nearest neg n k m j hk (window_exponent n k m j hk hj hm hn h) h
+
 end CssVerif.Num
